@@ -402,8 +402,10 @@ func c10Run(c *engine.Ctx) {
 			for _, ra := range c10Reps(a) {
 				for _, rb := range c10Reps(b) {
 					c.Eval()
+					// identify the case before running it: a defect may modify the operands in place
+					ka, kb, ta, tb := univ.Repr(ra), univ.Repr(rb), univ.ToTagged(ra), univ.ToTagged(rb)
 					if msg := c10CheckBinary(a, b, ra, rb); msg != "" {
-						c.Violation(univ.Repr(ra)+" op "+univ.Repr(rb), "inexact-arithmetic", map[string]any{"a": univ.ToTagged(ra), "b": univ.ToTagged(rb), "msg": msg})
+						c.Violation(ka+" op "+kb, "inexact-arithmetic", map[string]any{"a": ta, "b": tb, "msg": msg})
 					}
 				}
 			}
@@ -456,8 +458,9 @@ func c10Run(c *engine.Ctx) {
 		}
 		for _, ra := range c10Reps(a) {
 			c.Eval()
+			ka, ta := univ.Repr(ra), univ.ToTagged(ra)
 			if msg := c10CheckUnary(a, ra); msg != "" {
-				c.Violation(univ.Repr(ra), "inexact-unary", map[string]any{"a": univ.ToTagged(ra), "msg": msg})
+				c.Violation(ka, "inexact-unary", map[string]any{"a": ta, "msg": msg})
 			}
 		}
 		c.DistinctN(1)
